@@ -13,7 +13,7 @@ EXPLANATION = (
     "subtraction of g, which is only right for operands below g: no caller may hand it an operand computed by the modulus-free unary "
     "minus (negation modulo 2^256) unless that negation is guarded by `g == 0`. The hash, codec and arithmetic values themselves are "
     "NOT decided.")
-TRUSTED = ["clang 14 parser/Sema/constant evaluator/CFG", "/verif extractor"]
+TRUSTED = ["clang 14 parser/Sema/constant evaluator/CFG", "/verif extractor", "/verif term evaluator G-SYM (checker/symx.py): inlining, loop summaries relative to prev, linear normal form; casts between integer types are treated as value-preserving"]
 ASSUMPTIONS = ["ENABLE_DANGEROUS is undefined in the analysed configuration (those rows are not compiled and not analysed)"]
 DECLINED = ["every hash, codec, checksum and arithmetic result (value level)", "mutual inversion of encode/decode pairs"]
 
